@@ -73,6 +73,9 @@ def do_run(ids):
         pid = meta['property']
         if ids and pid not in ids and meta['seed'] not in ids:
             continue
+        if meta.get('no_longer_violates'):
+            rows.append((meta['seed'], pid, 'n/a', 'the change no longer breaks the property on the current code: ' + meta.get('superseded', ''), meta['title']))
+            print(rows[-1]); continue
         scr = '/tmp/seedscr'
         shutil.rmtree(scr, ignore_errors=True)
         os.makedirs(scr)
